@@ -431,6 +431,12 @@ func (m *Muxer) assembleExtended(w io.Writer) error {
 			alphaData, bitstream := splitAlphaAndBitstream(f.data)
 			subSize := frameSubChunksSize(alphaData, bitstream)
 			anmfPayload := uint32(container.ANMFChunkSize) + subSize
+			// The ANMF payload size must itself fit a chunk size field
+			// (the uint32 sums above wrap for frames close to 4 GiB).
+			anmf64 := uint64(container.ANMFChunkSize) + 2*uint64(container.ChunkHeaderSize) + uint64(len(alphaData)) + uint64(len(bitstream)) + 2
+			if anmf64 > uint64(container.MaxChunkPayload) {
+				return fmt.Errorf("mux: frame too large for an ANMF chunk (%d bytes)", len(f.data))
+			}
 			riffPayload64 += uint64(container.ChunkHeaderSize) + uint64(anmfPayload)
 			if anmfPayload%2 != 0 {
 				riffPayload64++
@@ -450,7 +456,7 @@ func (m *Muxer) assembleExtended(w io.Writer) error {
 		riffPayload64 += uint64(chunkTotalSize(uint32(len(m.xmpData))))
 	}
 
-	if riffPayload64 > uint64(math.MaxUint32) {
+	if riffPayload64 > uint64(container.MaxChunkPayload) {
 		return fmt.Errorf("mux: RIFF payload too large (%d bytes, exceeds 4GB limit)", riffPayload64)
 	}
 	riffPayload := uint32(riffPayload64)
